@@ -179,7 +179,33 @@ func engConcSetup(cc engConcCase) *engCtx {
 	for _, op := range cc.Setup {
 		ctx.engCall(op, ctx.prep(op), nil)
 	}
+	// reference observations: every render of the programs whose list items are of a kind the documentation does not
+	// cover, done alone before the threads start (the judge demands of such renders that they repeat, not a text)
+	ctx.pre = []engPreRec{}
+	seen := map[string]bool{}
+	for _, prog := range cc.Progs {
+		for _, op := range prog {
+			d := engOpData(op)
+			if op.Name() != "Render" || d["ik"] == "map" || d["ik"] == nil {
+				continue
+			}
+			k, _ := json.Marshal([]interface{}{op.Str("n"), op.Str("e"), d})
+			if seen[string(k)] {
+				continue
+			}
+			seen[string(k)] = true
+			res, _ := ctx.render(op.Str("n"), op.Str("e"), engData(d))
+			ctx.pre = append(ctx.pre, engPreRec{N: op.Str("n"), E: op.Str("e"), Data: d, Res: res})
+		}
+	}
 	return ctx
+}
+
+type engPreRec struct {
+	N    string                 `json:"n"`
+	E    string                 `json:"e"`
+	Data map[string]interface{} `json:"data"`
+	Res  engRes                 `json:"res"`
 }
 
 func engConcEvent(c Case, cc engConcCase, mode string, ctx *engCtx, calls []engCallRec) Ev {
@@ -191,7 +217,7 @@ func engConcEvent(c Case, cc engConcCase, mode string, ctx *engCtx, calls []engC
 	ctx.cleanup()
 	names := ctx.names
 	return Ev{"ev": "conc", "case": c.ID, "mode": mode, "setup": cc.Setup, "calls": calls, "final": final,
-		"names": names, "pdata": engOpData(ctx.probe), "races": []string{}, "fatal": "", "gates": 0, "stuck": false, "followed": true, "hraces": 0}
+		"names": names, "pdata": engOpData(ctx.probe), "races": []string{}, "fatal": "", "gates": 0, "stuck": false, "followed": true, "hraces": 0, "pre": ctx.pre}
 }
 
 func runEngineGate(c Case, emit Emitter) {
@@ -293,7 +319,7 @@ func runEngineGate(c Case, emit Emitter) {
 		// the engine may be wedged: do not touch it again
 		ctx.cleanup()
 		ev = Ev{"ev": "conc", "case": c.ID, "mode": "gate", "setup": cc.Setup, "calls": cp, "final": map[string]interface{}{},
-			"names": []string{}, "pdata": engOpData(ctx.probe), "races": []string{}, "fatal": "", "stuck": true, "hraces": 0}
+			"names": []string{}, "pdata": engOpData(ctx.probe), "races": []string{}, "fatal": "", "stuck": true, "hraces": 0, "pre": ctx.pre}
 	} else {
 		ev = engConcEvent(c, cc, "gate", ctx, cp)
 	}
@@ -349,7 +375,7 @@ func runEngineFreeChild(c Case, emit Emitter) {
 			cp := append([]engCallRec(nil), calls...)
 			mu.Unlock()
 			emit(Ev{"ev": "conc", "case": c.ID, "mode": "free", "setup": cc.Setup, "calls": cp, "final": map[string]interface{}{},
-				"names": []string{}, "pdata": engOpData(ctx.probe), "races": []string{}, "fatal": "", "gates": 0, "stuck": true, "followed": true, "hraces": 0})
+				"names": []string{}, "pdata": engOpData(ctx.probe), "races": []string{}, "fatal": "", "gates": 0, "stuck": true, "followed": true, "hraces": 0, "pre": ctx.pre})
 			return
 		}
 	}
@@ -465,7 +491,7 @@ func runEngineFree(c Case, emit Emitter) {
 		cc, _ := engConcParse(c)
 		evs = append(evs, Ev{"ev": "conc", "case": c.ID, "mode": "free", "setup": cc.Setup, "calls": []engCallRec{}, "final": map[string]interface{}{},
 			"names": []string{}, "pdata": map[string]interface{}{"v": "", "items": []interface{}{}, "c": false, "ik": "map"},
-			"races": []string{}, "fatal": "", "gates": 0, "stuck": false, "followed": true})
+			"races": []string{}, "fatal": "", "gates": 0, "stuck": false, "followed": true, "pre": []engPreRec{}})
 	}
 	last := evs[len(evs)-1]
 	last["races"] = sites
